@@ -1,6 +1,7 @@
 package props
 
 import (
+	"context"
 	"errors"
 	"fmt"
 	"math/rand"
@@ -71,6 +72,28 @@ func c04CheckText(a *ChildArgs, idBase string, t lexgen.Text) []models.TokenWith
 	tk := mustTokenizer()
 	toks, err := tk.Tokenize([]byte(t.S))
 	wit := map[string]interface{}{"text": t.S, "lexemes": lexTexts(t)}
+	// the context-aware entry point reads the same text the same way (kinds, values, spans, comments, verdict)
+	{
+		tk2 := mustTokenizer()
+		toks2, err2 := tk2.TokenizeContext(context.Background(), []byte(t.S))
+		if (err == nil) != (err2 == nil) || (err == nil && (dump.Dump(toks) != dump.Dump(toks2) || dump.Dump(tk.Comments) != dump.Dump(tk2.Comments))) {
+			what := "tokens or comments differ"
+			if (err == nil) != (err2 == nil) {
+				what = fmt.Sprintf("Tokenize: %v; TokenizeContext: %v", err, err2)
+			} else {
+				for i := range toks {
+					if i >= len(toks2) || dump.Dump(toks[i]) != dump.Dump(toks2[i]) {
+						what = fmt.Sprintf("first difference at token %d: %s", i, trunc(dump.Dump(toks[i]), 120))
+						if i < len(toks2) {
+							what += " vs " + trunc(dump.Dump(toks2[i]), 120)
+						}
+						break
+					}
+				}
+			}
+			a.Rec.Viol(idBase+"/context-entry-differs", "exactly the lexical elements of the input, whichever tokenizing entry point reads it", what, wit)
+		}
+	}
 	if err != nil {
 		a.Rec.Viol(idBase+"/rejected/"+errIdentity(err), "every lexeme sequence of the documented lexical grammar is tokenized", "error: "+firstLine(err.Error()), wit)
 		return nil
@@ -371,6 +394,25 @@ func c04Child(a *ChildArgs) {
 				if (e1 == nil) != (e2 == nil) {
 					a.Rec.Viol("C04/statements/fold-spelled-keyword", "each element with its kind: a word that merely case-folds to a keyword is a name",
 						fmt.Sprintf("%q: err=%v; with an ordinary name %q: err=%v", pair[0], e1, pair[1], e2), map[string]interface{}{"text": pair[0], "control": pair[1]})
+				}
+			}
+			// a quoted name or a string in the place of a clause keyword is judged like any other quoted name or string
+			// there, whatever it spells
+			for _, pair := range [][2]string{
+				{"INSERT INTO t VALUES (1) ON \"conflict\" DO NOTHING", "INSERT INTO t VALUES (1) ON \"xonflict\" DO NOTHING"}, {"INSERT INTO t VALUES (1) ON 'conflict' DO NOTHING", "INSERT INTO t VALUES (1) ON 'xonflict' DO NOTHING"},
+				{"INSERT INTO t (a) VALUES (1) ON \"duplicate\" KEY UPDATE a = 2", "INSERT INTO t (a) VALUES (1) ON \"xuplicate\" KEY UPDATE a = 2"}, {"INSERT INTO t (a) VALUES (1) ON DUPLICATE 'key' UPDATE a = 2", "INSERT INTO t (a) VALUES (1) ON DUPLICATE 'xey' UPDATE a = 2"},
+				{"INSERT INTO t (a) VALUES (1) ON CONFLICT ON \"constraint\" c DO NOTHING", "INSERT INTO t (a) VALUES (1) ON CONFLICT ON \"xonstraint\" c DO NOTHING"},
+				{"SELECT MATCH(a) \"against\" ('x') FROM t", "SELECT MATCH(a) \"xgainst\" ('x') FROM t"}, {"SELECT MATCH(a) 'against' ('x') FROM t", "SELECT MATCH(a) 'xgainst' ('x') FROM t"},
+				{"SELECT a FROM t WHERE a NOT 'in' (1)", "SELECT a FROM t WHERE a NOT 'xn' (1)"}, {"SELECT a FROM t WHERE a NOT \"like\" 'x'", "SELECT a FROM t WHERE a NOT \"xike\" 'x'"},
+				{"SELECT a FROM t WHERE a NOT 'between' 1 AND 2", "SELECT a FROM t WHERE a NOT 'xetween' 1 AND 2"}, {"SELECT a FROM t WHERE a NOT $$ilike$$ 'x'", "SELECT a FROM t WHERE a NOT $$xlike$$ 'x'"},
+			} {
+				_, e1 := gosqlx.Parse(pair[0])
+				_, e2 := gosqlx.Parse(pair[1])
+				a.Rec.Count("evaluations", 1)
+				a.Rec.Distinct("texts", pair[0])
+				if (e1 == nil) != (e2 == nil) {
+					a.Rec.Viol("C04/statements/quoted-word-read-as-keyword", "quoted identifiers kept distinct from strings and from keywords",
+						fmt.Sprintf("%q: err=%v; with another quoted word %q: err=%v", pair[0], e1, pair[1], e2), map[string]interface{}{"text": pair[0], "control": pair[1]})
 				}
 			}
 			// a literal or quoted name whose whole content spells a keyword (or a compound keyword) is still a literal
